@@ -386,6 +386,36 @@ pub fn run(tier: Tier) -> i32 {
     for p in parts {
         rep.stats.merge(p);
     }
+    // (b2) regexes that are each cheap enough to load but heavy together: the optimiser merges the
+    //      searches of an or-group into one set and must survive when that set does not build
+    {
+        let heavy = ["?\\pL{150}", "?x\\pL{150}", "i?\\pL{150}", "i?y\\pL{150}", "?\\w{120}", "?a", "a*"];
+        let mut yamls: Vec<String> = vec![];
+        for a in heavy {
+            for b in heavy {
+                let q = |x: &str| serde_json::to_string(x).unwrap();
+                yamls.push(format!("detection:\n  A: [{{k: {}}}, {{k: {}}}]\n  condition: A\ntrue_positives: []\ntrue_negatives: []\n", q(a), q(b)));
+                yamls.push(format!("detection:\n  A: {{k: {}}}\n  B: {{k: {}}}\n  C: {{k: '?z'}}\n  condition: A or B or C\ntrue_positives: []\ntrue_negatives: []\n", q(a), q(b)));
+                yamls.push(format!("detection:\n  A: [{{k: {}, g: x}}, {{k: {}, g: y}}, {{k: {}}}]\n  condition: not A\ntrue_positives: []\ntrue_negatives: []\n", q(a), q(b), q(a)));
+            }
+        }
+        let parts: Vec<Stats> = yamls
+            .par_iter()
+            .map(|yaml| {
+                let mut st = Stats::default();
+                if let Ok(r) = eng::load(yaml) {
+                    let adv = AdvDoc::new(adv_answers.iter().take(6).cloned().collect());
+                    torture(&r, yaml, &adv, 1, cap, &mut st);
+                    st.nontrivial += 1;
+                    st.count("heavy_regex_rules_loaded", 1);
+                }
+                st
+            })
+            .collect();
+        for p in parts {
+            rep.stats.merge(p);
+        }
+    }
     // (c) validate() never panics on a loaded rule, whatever the examples are
     let examples = [
         "[]", "[{f: x}]", "[foo]", "[1]", "[null]", "[[a]]", "[true]", "[{}]", "[{f: [1, {g: x}]}, 1.5]", "[{1: x}]",
@@ -484,7 +514,7 @@ pub fn run(tier: Tier) -> i32 {
     rep.stats.sample(json!({"rule":"B and all(A)","switches":"shake+matrix","document_answers":["NaNf","absent","[1i, \"a\", null, {x: \"a\"}, []]"]}));
     rep.extra.insert("deviation_bound".into(), json!(bound));
     rep.extra.insert("answer_alphabet".into(), json!(adv_answers.iter().map(|a| a.as_ref().map(|v| v.show()).unwrap_or("absent".into())).collect::<Vec<_>>()));
-    rep.rule = "conditions: every token string up to the length bound over 21 tokens, loaded over identifier bodies of every value kind; every loaded condition (distinct parse trees) and every rule of the shared universe x 16 switch sets (distinct optimised trees) x an adversarial document whose every find() answer is a choice point over the value-kind alphabet (answers need not be consistent), explored exhaustively up to the stated number of deviations from the default answer; plus validate() over example lists of every YAML kind; plus every string up to the length bound over {a b . [ ] 0 1 - blank} as a field name (plain, inside a nested block, under all() and int()) matched unoptimised and fully optimised against five concrete documents in two representations through the crate's own Object::find. Oracle: no panic in optimise / matches / validate, and structurally every operand of and/or/not is a predicate and every identifier exists. non-trivial = loaded rule".into();
+    rep.rule = "conditions: every token string up to the length bound over 21 tokens, loaded over identifier bodies of every value kind; every loaded condition (distinct parse trees) and every rule of the shared universe x 16 switch sets (distinct optimised trees) x an adversarial document whose every find() answer is a choice point over the value-kind alphabet (answers need not be consistent), explored exhaustively up to the stated number of deviations from the default answer; plus or-groups of regexes that are heavy enough for their merged set to exceed the regex size limit; plus validate() over example lists of every YAML kind; plus every string up to the length bound over {a b . [ ] 0 1 - blank} as a field name (plain, inside a nested block, under all() and int()) matched unoptimised and fully optimised against five concrete documents in two representations through the crate's own Object::find. Oracle: no panic in optimise / matches / validate, and structurally every operand of and/or/not is a predicate and every identifier exists. non-trivial = loaded rule".into();
     rep.assumptions = vec!["nested objects returned by the adversarial document are fixed trees (only top-level answers are choice points)".into()];
     rep.finish()
 }
